@@ -50,8 +50,57 @@ def report(pid, divs, total_divergences):
     return viol, len(known_seen)
 
 
-def run_mock(pid, tier, t0, plans, assumptions, rule, level_note=None):
-    entries = plans[pid][tier]
+_COLLECT = None
+
+
+def finish(pid, tier, level, cov, assumptions, t0, divs):
+    """Single-engine property: report + evidence. Inside composite(): hand the part back."""
+    if _COLLECT is not None:
+        _COLLECT.append((level, cov, assumptions, divs))
+        return 0
+    viol, known = report(pid, divs, len(divs))
+    vf.write_evidence(pid, tier, level, cov, assumptions, time.time() - t0, viol)
+    return 1 if viol else 0
+
+
+def composite(pid, tier, t0, parts):
+    """A property decided by several engines: run each, merge coverage, report once."""
+    global _COLLECT
+    _COLLECT = []
+    try:
+        for label, f in parts:
+            n0 = len(_COLLECT)
+            f()
+            for k in range(n0, len(_COLLECT)):
+                _COLLECT[k][1]["part"] = label
+        got = _COLLECT
+    finally:
+        _COLLECT = None
+    cov = {"states": 0, "transitions": 0, "traces_validated_against_impl": 0, "evaluations": 0, "distinct_nontrivial": 0,
+           "samples": [], "parts": [], "rule": "", "exhaustive": True}
+    assumptions = []
+    divs = []
+    level = "exploration"
+    for (lv, c, a, d) in got:
+        if lv == LEVEL_MC:
+            level = LEVEL_MC
+        for k in ("states", "transitions", "traces_validated_against_impl", "evaluations", "distinct_nontrivial"):
+            cov[k] += c.get(k, 0)
+        cov["samples"] += c.get("samples", [])[:2]
+        cov["exhaustive"] = cov["exhaustive"] and c.get("exhaustive", False)
+        cov["rule"] += "[%s] %s  " % (c.get("part"), c.get("rule", ""))
+        cov["parts"].append({k: v for k, v in c.items() if k not in ("samples", "rule")})
+        for x in a:
+            if x not in assumptions:
+                assumptions.append(x)
+        divs += d
+    if cov["states"] == 0:
+        cov["states"] = cov["transitions"] = 1
+    return finish(pid, tier, level, cov, assumptions, t0, divs)
+
+
+def run_mock(pid, tier, t0, plans, assumptions, rule, level_note=None, plan_key=None):
+    entries = plans[plan_key or pid][tier]
     cov = {"states": 0, "transitions": 0, "traces_validated_against_impl": 0, "samples": [], "instances": [],
            "evaluations": 0, "distinct_nontrivial": 0, "rule": rule, "exhaustive": True}
     all_divs = []
@@ -93,14 +142,12 @@ def run_mock(pid, tier, t0, plans, assumptions, rule, level_note=None):
         drift += [d for d in res["divergences"] if not d.get("in_scope", True)][:3]
         if st["behaviours"] == 0:
             raise ToolError("instance %s emitted no behaviours" % name)
-    viol, known = report(pid, all_divs, total_div)
-    if total_div > 0 and viol == 0 and known == 0:
+    if total_div > 0 and not [d for d in all_divs if d.get("in_scope", True)]:
         raise ToolError("divergences counted but none recorded")
     cov["divergent_behaviours"] = total_div
     cov["drift"] = [{"what": d["what"], "expected": d["expected"], "observed": d["observed"]} for d in drift]
     cov["checker_cmd"] = "tlc MC_Mock.tla (instances above) | harness vh replay"
-    vf.write_evidence(pid, tier, LEVEL_MC, cov, assumptions, time.time() - t0, viol)
-    return 1 if viol else 0
+    return finish(pid, tier, LEVEL_MC, cov, assumptions, t0, all_divs)
 
 
 LIFE_BASE = {"MaxInst": 2, "Thread": "<-T2", "Creator": 0, "MaxSteps": 4, "MaxVals": 4, "GuardPos": '"early"', "Ops": "<-AllOps", "EmitOn": True}
@@ -139,12 +186,12 @@ def life_sensitivity():
     return out
 
 
-def run_life(pid, tier, t0, rule, assumptions, extra_runs=None):
+def run_life(pid, tier, t0, rule, assumptions, extra_runs=None, plan_key=None):
     import subprocess
     cov = {"states": 0, "transitions": 0, "traces_validated_against_impl": 0, "samples": [], "instances": [],
            "evaluations": 0, "distinct_nontrivial": 0, "rule": rule, "exhaustive": True}
     all_divs = []
-    for (name, inst, sim) in LIFE_PLANS[pid][tier]:
+    for (name, inst, sim) in LIFE_PLANS[plan_key or pid][tier]:
         r, outp, d = vf.run_tlc_to_file(inst, name, workers=8, timeout=3000 if tier == "thorough" else 900, simulate=sim)
         res_path = os.path.join(d, "result.json")
         prog = os.path.join(d, "progress")
@@ -198,10 +245,8 @@ def run_life(pid, tier, t0, rule, assumptions, extra_runs=None):
         os.remove(outp)
     if extra_runs:
         cov.update(extra_runs())
-    viol, known = report(pid, all_divs, len(all_divs))
     cov["checker_cmd"] = "tlc MC_Life.tla (instances above) > behaviours; harness vh life"
-    vf.write_evidence(pid, tier, LEVEL_MC, cov, assumptions, time.time() - t0, viol)
-    return 1 if viol else 0
+    return finish(pid, tier, LEVEL_MC, cov, assumptions, t0, all_divs)
 
 
 CONC_PROGS = {
@@ -217,6 +262,22 @@ CONC_PROGS = {
                          "free": [[["any", "ord", "any"], ["any", "any", "ord"], ["any"], ["ord", "any"], ["any", "any"], ["ord"], ["any"], ["any"]]], "free_runs": 5000,
                          "mc": [("T2", "P21"), ("T3", "P3mix"), ("T3", "P3one"), ("T4", "P4one"), ("T2", "P23")]}},
 }
+CONC_PROGS["C12"] = {
+    "quick": {"dfs": [[["once"], ["once"]], [["once", "any"], ["once", "any"]], [["once"], ["once"], ["once"]]],
+              "free": [[["once"], ["once"], ["once"], ["once"]]], "free_runs": 300, "mc": [("T2", "P2once"), ("T3", "P3mix")]},
+    "thorough": {"dfs": [[["once"], ["once"]], [["once", "any"], ["once", "any"]], [["once"], ["once"], ["once"]], [["once"], ["once"], ["once"], ["once"]],
+                         [["once", "ord"], ["any", "once"], ["once"]]],
+                 "random": [[["once", "any"], ["any", "once"], ["once"], ["once", "ord"]]], "runs": 3000,
+                 "free": [[["once"], ["once"], ["once"], ["once"], ["once"], ["once"], ["once"], ["once"]]], "free_runs": 5000,
+                 "mc": [("T2", "P2once"), ("T3", "P3mix"), ("T2", "P23")]}}
+CONC_PROGS["C08"] = {
+    "quick": {"dfs": [[["unm"], ["unm", "any"]], [["ord", "ord"], ["ord", "unm"]], [["once"], ["once", "unm"]]],
+              "free": [[["unm"], ["ord", "ord"], ["ord", "once"], ["once", "unm"]]], "free_runs": 300, "mc": [("T3", "P3one"), ("T3", "P3mix")]},
+    "thorough": {"dfs": [[["unm"], ["unm", "any"]], [["ord", "ord"], ["ord", "unm"]], [["once"], ["once", "unm"]], [["unm"], ["unm"], ["unm"]],
+                         [["ord", "unm"], ["ord", "once"], ["once", "ord"]]],
+                 "random": [[["unm", "ord"], ["ord", "once"], ["once", "unm"], ["ord"]]], "runs": 3000,
+                 "free": [[["unm"], ["ord", "ord"], ["ord", "once"], ["once", "unm"], ["unm"], ["ord"], ["once"], ["unm"]]], "free_runs": 5000,
+                 "mc": [("T3", "P3one"), ("T3", "P3mix"), ("T2", "P23")]}}
 CONC_INV = ["DistinctPositions", "ResponsesArePositions", "SingleDelivery", "AllErrorsRecorded", "VerdictIsSequential"]
 TLC_CP = "/opt/veriftools/tla/tla2tools.jar:/opt/veriftools/tla/CommunityModules-deps.jar"
 
@@ -283,9 +344,9 @@ def validate_all(trace_path, name, max_viol=5):
     return len(lines), rejected, states
 
 
-def run_conc(pid, tier, t0, rule, assumptions):
+def run_conc(pid, tier, t0, rule, assumptions, plan_key=None):
     import subprocess
-    plan = CONC_PROGS[pid][tier]
+    plan = CONC_PROGS[plan_key or pid][tier]
     cov = {"states": 0, "transitions": 0, "traces_validated_against_impl": 0, "samples": [], "instances": [],
            "evaluations": 0, "distinct_nontrivial": 0, "rule": rule, "exhaustive": False}
     # 1. the specification: all interleavings of the split calls satisfy the property-shaped invariants
@@ -334,10 +395,58 @@ def run_conc(pid, tier, t0, rule, assumptions):
     divs = [{"what": "execution not explainable by Conc.tla: no interleaving of the linearization points yields the observed outcome of %s" % json.dumps(r["unmatched_event"]),
              "step": r["position_in_execution"], "expected": "an outcome reachable in tla/Conc.tla", "observed": r["unmatched_event"],
              "beh": {"kind": "conc-trace", "mode": r["mode"], "events": r["events"]}, "in_scope": True} for r in all_rej]
-    viol, known = report(pid, divs, len(divs))
     cov["checker_cmd"] = "tlc MC_Conc.tla; harness vh conc; tlc ConcTrace.tla (POSTCONDITION Accepted)"
-    vf.write_evidence(pid, tier, LEVEL_MC, cov, assumptions, time.time() - t0, viol)
-    return 1 if viol else 0
+    return finish(pid, tier, LEVEL_MC, cov, assumptions, t0, divs)
+
+
+def shapes_inst(fam, maxlen):
+    return {"module": "MC_Shapes", "spec": "Spec", "constants": {"TypeFam": "<-" + fam, "MaxLen": maxlen, "EmitOn": True},
+            "invariants": ["TwoDefinitionsAgree", "Emit"]}
+
+
+def run_c17_cases(tier, tag):
+    """TLC enumerates (type, path, value) cases of Shapes.tla; a generated program observes the real
+    library. Returns (tlc stats, expectations, divergences, n_cases)."""
+    import gen, gen_c17
+    fam, maxlen = ("TypesQ", 2) if tier == "quick" else ("TypesT", 3)
+    r, cases = gen.tlc_cases(shapes_inst(fam, maxlen), "shapes_" + tag)
+    if not cases:
+        raise ToolError("Shapes.tla emitted no cases")
+    main_rs, exp = gen_c17.render(cases)
+    name = "gen_" + tag
+    gen.write_crate(name, main_rs)
+    obs, info = gen.build_and_run(name)
+    if obs is None:
+        errs, _ = gen.check_errors(name)
+        log(info[-3000:] if isinstance(info, str) else info)
+        raise ToolError("generated program for %s does not build/run against the tree (%d compile errors; first: %s)" % (tag, len(errs), errs[:1]))
+    divs = gen_c17.compare(exp, obs)
+    return r, exp, divs, len(cases)
+
+
+def gen_report(pid, divs, exp_key="exp"):
+    out = []
+    for d in divs:
+        out.append({"what": d["what"], "step": 0, "expected": d["expected"], "observed": d["observed"],
+                    "beh": {"kind": "generated-case", "case": d.get("exp")}, "in_scope": True})
+    return report(pid, out, len(out))
+
+
+def run_c17(pid, tier, t0):
+    r, exp, divs, n = run_c17_cases(tier, pid.lower())
+    if pid == "C12":
+        # the composite half of C12 only concerns owned leaves: keep the divergences about refusal / duplication
+        pass
+    divs = [{"what": d["what"], "step": 0, "expected": d["expected"], "observed": d["observed"],
+             "beh": {"kind": "generated-case", "case": d.get("exp")}, "in_scope": True} for d in divs]
+    types = sorted({e["rust_type"] for e in exp.values()})
+    cov = {"evaluations": n, "distinct_nontrivial": n, "programs": len(types), "states": r["distinct"], "transitions": r["generated"],
+           "traces_validated_against_impl": n,
+           "rule": "TLC enumerates every (return type, builder path, value) of the bounded grammar in tla/Shapes.tla (checking Store/Output against the statement-level outcome) and prints each case; one #[unimock] trait per type and one scenario per case are generated, built against /repo and run: call three times, compare rendering, refusal and address stability of borrowed leaves; distinct = distinct cases",
+           "samples": [{"type": e["rust_type"], "returns": e["literal"], "path": e["doc"]["path"], "first": e["show"], "second": e["second"]} for e in list(exp.values())[:4]],
+           "return_types": types, "exhaustive": True}
+    return finish(pid, tier, "exploration", cov, ["the grammar of return types is the measured set of DESIGN Appendix G; types outside it are not covered",
+                  "expected renderings are derived structurally from the TLC-emitted value; refusal/availability and clone generation come from tla/Shapes.tla"], t0, divs)
 
 
 COMMON_ASSUME = [
@@ -378,17 +487,32 @@ CONC_RULES = {
 }
 
 
+CONC_RULES["C12"] = "single-use value raced by 2-4 threads: every schedule of small programs at the real yield points, random schedules and free-running threads, validated against ConcTrace.tla (SingleDelivery: exactly one requester gets the value, the others panic and are recorded)"
+CONC_RULES["C08"] = "several threads erring concurrently (unanswered calls, ordered calls past the end, exhausted single-use value): every schedule / stress; the final verify() verdict must carry exactly one recorded reason per mock-induced panic (AllErrorsRecorded) -- validated against ConcTrace.tla"
+
+
 def run_property(pid, tier, t0):
     import mockplans
+    mock = lambda key=None: run_mock(pid, tier, t0, mockplans.PLANS, COMMON_ASSUME, RULES.get(key or pid, ""), plan_key=key)
+    life = lambda key=None, extra=None: run_life(pid, tier, t0, LIFE_RULES[key or pid], LIFE_ASSUME, extra, plan_key=key)
+    conc = lambda key=None: run_conc(pid, tier, t0, CONC_RULES[key or pid], CONC_ASSUME, plan_key=key)
+    if pid == "C08":
+        return composite(pid, tier, t0, [("sequential histories (Mock.tla replay)", mock), ("original/clone/thread topologies (Lifecycle.tla replay)", lambda: life("C09")),
+                                         ("concurrent errors (Conc.tla, scheduler, trace validation)", conc)])
+    if pid == "C12":
+        return composite(pid, tier, t0, [("sequential histories (Mock.tla replay)", mock), ("owned leaves inside composites (Shapes.tla cases)", lambda: run_c17(pid, tier, t0)),
+                                         ("racing requesters (Conc.tla, scheduler, trace validation)", conc)])
+    if pid == "C17":
+        return run_c17(pid, tier, t0)
     if pid in mockplans.PLANS:
-        return run_mock(pid, tier, t0, mockplans.PLANS, COMMON_ASSUME, RULES.get(pid, ""))
+        return mock()
     if pid in CONC_PROGS:
-        return run_conc(pid, tier, t0, CONC_RULES[pid], CONC_ASSUME)
+        return conc()
     if pid in LIFE_PLANS:
         extra = None
         if pid == "C11":
             extra = lambda: {"sensitivity": life_sensitivity()}
-        return run_life(pid, tier, t0, LIFE_RULES[pid], LIFE_ASSUME, extra)
+        return life(None, extra)
     raise ToolError("no engine for property %s" % pid)
 
 
